@@ -5,7 +5,7 @@ from .common import TRUSTED, ASSUMPTIONS, LEVEL_NOTE, TECHNIQUE
 from . import C14 as _C14
 
 LEVEL = "proof"
-THEOREMS = []
+THEOREMS = ['C19_mul_exact_ok', 'C19_comul_exact_ok', 'C19_deduce_exact_ok', 'C19_trans_exact_ok', 'C19_product_exact_ok', 'C19_cfuse_exact_ok', 'C19_afuse_exact_ok', 'C19_wfuse_exact_ok', 'C19_legit_failures', 'C19_exact_wf']
 RULE = ("the nine binomial operators and the unlabelled Product2/3 on well-formed operands inside their documented domains: 1/8 grid "
         "(exhaustive pairs in thorough) and random dyadic grids (must never fail), arbitrary non-dyadic floats (every failure is "
         "classified through the hook by rejected label and distance from the admissible set: rounding residue <= 1e-9 vs ill-formed "
